@@ -2,9 +2,10 @@
  'kind': 'proof', 'mode': 'legacy',
  'functions': ['igris::base64_encode(const uint8_t*, size_t)'],
  'extract': 'units/C18/cxx_extract.py',
- 'clauses': 'for every size and content (C++ source extracted mechanically, std::string operations by spec/c18_string_stub.h): the result has exactly 4*ceil(size/3) characters; '
+ 'params': {'R': [0, 1, 2]},
+ 'clauses': 'for every size = 3q + R and content (C++ source extracted mechanically, std::string operations by spec/c18_string_stub.h): the result has exactly 4*ceil(size/3) characters; '
             'character k is the RFC 4648 Table 1 character of the k-th 6-bit group of the input (zero-padded last group) for k < ceil(8*size/6) and the pad = otherwise '
-            '(tail of 1 byte: 2 characters + "==", tail of 2 bytes: 3 characters + "="); loop invariant: after 3j input bytes exactly 4j characters, each the reference character of '
+            '(R=1: 2 characters + "==", R=2: 3 characters + "="); loop invariant: after 3j input bytes exactly 4j characters, each the reference character of '
             'its group (ghost index); reads only indata[0..size) (exact-size object), input not modified; never appends beyond the specified length: with storage for exactly '
             '4*ceil(size/3) characters no library call throws',
  'inject': [{'file': 'overlay:cxx/base64_cxx.c', 'func': 'base64_encode', 'loop': 0, 'expect': 'while (remaining >= 3)',
@@ -12,52 +13,52 @@
              'invariants': ['g_j <= g_q && remaining == 3 * (g_q - g_j) + g_r',
                             '__CPROVER_same_object(dp, indata) && __CPROVER_POINTER_OFFSET(dp) >= 0 && (size_t)__CPROVER_POINTER_OFFSET(dp) == 3 * g_j',
                             'outdata.size == 4 * g_j && outdata.size <= outdata.cap',
-                            'C18_IMP(g_k < outdata.size, outdata.p[g_k] == SPEC_B64_ENC_CHAR(0, indata, size, g_k))'],
+                            'C18_IMP(g_k < outdata.size, outdata.p[g_k] == SPEC_B64Q_ENC_CHAR(0, indata, g_q, g_r, g_k))'],
              'decreases': 'remaining'},
             {'file': 'overlay:cxx/base64_cxx.c', 'func': 'base64_encode', 'ghost': 'g_j++;', 'at': 'body-end', 'loop': 0}],
  'trusted': ['libstdc++ std::string implements reserve / push_back / default construction as ISO C++ [basic.string] specifies (stub spec/c18_string_stub.h)'],
  'assumptions': ['indata is passed by its base address (the loop invariant speaks in object offsets)',
                  'executions in which std::string cannot grow (length_error / bad_alloc) leave the function by an exception and are outside the property; '
                  'the storage g_vc_string_cap is arbitrary, and with cap >= 4*ceil(size/3) a throw is a proof obligation (never happens)',
+                 'base64_charset keeps its initial value (mutable static pointer never written by base64.cpp; re-established by C18_RESTORE_STATICS because '
+                 'goto-instrument --apply-loop-contracts havocs mutable statics)',
                  'cxx2c rules listed in the evidence carry the C++ semantics over (std::string operations -> stub calls, return by value -> struct copy)'],
  'witness': {'unwind': 8},
 } @*/
 #include "vc.h"
 #include "c18_base64_ref.h"
 #define C18_IMP(a, b) (!(a) || (b))
-size_t g_j; /* ghost: number of complete 3-byte groups encoded so far */
-size_t g_q, g_r; /* ghost: size == 3 * g_q + g_r, g_r < 3 (set by the harness, which builds size that way: no 64-bit division in the proof) */
-size_t g_k; /* ghost index: arbitrary, so a statement about character g_k is a statement about every character */
+size_t g_j;      /* ghost: number of complete 3-byte groups encoded so far */
+size_t g_q, g_r; /* ghost: size == 3 * g_q + g_r, g_r < 3 (the harness builds the size that way: no 64-bit division in the proof) */
+size_t g_k;      /* ghost index: arbitrary, so a statement about character g_k is a statement about every character */
 #include "cxx/base64_cxx.c"
 
 void harness(void)
 {
     WIT(size_t, q);
-    WIT(size_t, r);
+    size_t r = R;            /* one run per residue of the size modulo 3 (no tail, 1-byte tail, 2-byte tail) */
     WIT(size_t, cap);
     WIT(size_t, k);
     WIT(size_t, j);
     WIT_ARR(uint8_t, content, 6);
-    __CPROVER_assume(q <= VC_MAXOBJ / 3 && r < 3 && cap <= 2 * VC_MAXOBJ);
-    size_t n = 3 * q + r;                 /* every size 0..VC_MAXOBJ, given as quotient and remainder by 3 */
-    size_t want_len = 4 * (q + (r != 0)); /* 4*ceil(n/3) */
-    size_t want_data = 4 * q + (r ? r + 1 : 0); /* ceil(8n/6): characters that carry data, the rest is padding */
+    __CPROVER_assume(q <= VC_MAXOBJ / 3 && cap <= 2 * VC_MAXOBJ);
+    size_t n = 3 * q + r;    /* every size 0..VC_MAXOBJ, given as quotient and remainder by 3 */
     uint8_t *x = NEW_OBJ(n); /* exact size: a read outside indata[0..size) fails */
     FILL(x, n, content);
     C18_RESTORE_STATICS();   /* initial value of the never-written static pointer base64_charset, see cxx_extract.py */
     g_vc_string_cap = cap;   /* arbitrary storage; exactly the specified length is one of the cases */
-    g_vc_string_nothrow = cap >= want_len;
+    g_vc_string_nothrow = cap >= SPEC_B64Q_ENC_LEN(q, r);
     g_k = k;
     g_j = 0; g_q = q; g_r = r;
     uint8_t x_j = j < n ? x[j] : 0;
 
     struct vc_string res = base64_encode(x, n);
 
-    __CPROVER_assert(res.size == want_len, "length is 4*ceil(n/3)");
+    __CPROVER_assert(res.size == SPEC_B64Q_ENC_LEN(q, r), "length is 4*ceil(n/3)");
     if (k < res.size) {
-        __CPROVER_assert(res.p[k] == SPEC_B64_ENC_CHAR(0, x, n, k), "character k is the RFC 4648 character of its 6-bit group, or the pad");
+        __CPROVER_assert(res.p[k] == SPEC_B64Q_ENC_CHAR(0, x, q, r, k), "character k is the RFC 4648 character of its 6-bit group, or the pad");
         __CPROVER_assert(SPEC_B64_IS(0, res.p[k]) || res.p[k] == SPEC_B64_PAD, "only RFC 4648 Table 1 letters and =");
-        __CPROVER_assert((res.p[k] == SPEC_B64_PAD) == (k >= want_data), "pads exactly behind the data characters");
+        __CPROVER_assert((res.p[k] == SPEC_B64_PAD) == (k >= SPEC_B64Q_NDATA(q, r)), "pads exactly behind the ceil(8n/6) data characters");
     }
     __CPROVER_assert(!(j < n) || x[j] == x_j, "input not modified");
     CANARY("base64_encode harness end reachable");
